@@ -59,6 +59,14 @@ fn print_pastel_warning() {
 }
 
 fn run() -> Result<ExitCode> {
+    // clap 3 panics ("unexpected invalid UTF-8 code point") when an argument that is not valid
+    // UTF-8 follows an unknown flag, instead of reporting its usual error. Reject such command
+    // lines up front, the way clap does in all other cases.
+    if std::env::args_os().any(|arg| arg.to_str().is_none()) {
+        eprintln!("error: Invalid UTF-8 was detected in one or more arguments");
+        return Ok(2);
+    }
+
     let app = cli::build_cli();
     let global_matches = app.get_matches();
 
